@@ -142,10 +142,15 @@ type zAggr struct{ samples []*netsample.Sample }
 func (a *zAggr) Report(s core.Sample)                                 { a.samples = append(a.samples, s.(*netsample.Sample)) }
 func (a *zAggr) Run(ctx context.Context, _ core.AggregatorDeps) error { return nil }
 
+type zStorage struct{}
+
+func (zStorage) Variables() map[string]any { return map[string]any{"who": "O'Brien", "tok": "a+b"} }
+
 type zStep struct {
 	kind int64 // 0 method A, 1 method B, 2 unknown method, 3 payload that does not fit
 	val  string
 	md   map[string]string
+	tmpl map[string]string // metadata as written in the definition, when it differs from what is sent
 }
 
 func zMdEqual(got map[string][]string, want map[string]string) bool {
@@ -219,6 +224,17 @@ func HarnessC20ScenarioCalls() {
 		scens = append(scens, sc)
 		steps = append(steps, ss)
 	}
+	// values that come from a data source through template actions arrive as they are (quotes, plus
+	// signs and all): the call of the second scenario takes its payload value and a metadata value
+	// from the source
+	if names == 1 && steps[1][0].kind <= 1 && vNondetBool("fromSource") {
+		scens[1].VariableStorage = zStorage{}
+		scens[1].Calls[0].Payload = []byte(`{"f":"{{.source.who}}"}`)
+		scens[1].Calls[0].Metadata = map[string]string{"k": "{{.source.tok}}"}
+		steps[1][0].val = "O'Brien"
+		steps[1][0].md = map[string]string{"k": "a+b"}
+		steps[1][0].tmpl = map[string]string{"k": "{{.source.tok}}"}
+	}
 	ag := &zAggr{}
 	// (the timeout setting is varied for one naming only: it does not interact with the template cache)
 	confTimeout := time.Duration(0)
@@ -290,7 +306,11 @@ func HarnessC20ScenarioCalls() {
 		// the shared definition is left as written
 		for i, st := range steps[si] {
 			vCheck("W3.scenario.definition.metadata.untouched", len(scens[si].Calls[i].Metadata) == len(st.md))
-			for k, v := range st.md {
+			def := st.md
+			if st.tmpl != nil {
+				def = st.tmpl
+			}
+			for k, v := range def {
 				vCheck("W3.scenario.definition.metadata.untouched", scens[si].Calls[i].Metadata[k] == v)
 			}
 		}
